@@ -6,6 +6,7 @@ import json
 import os
 import random
 import sys
+import unittest.mock
 
 from harness import common
 from harness import stubrender_gen as gen
@@ -62,10 +63,10 @@ def resolve(mod, path, name):
         obj = inspect.getattr_static(obj, c)
     raw = obj.__dict__[name] if path else getattr(mod, name)
     if isinstance(raw, (classmethod, staticmethod)):
-        return raw.__func__
+        return inspect.unwrap(raw.__func__)
     if isinstance(raw, property):
         return raw.fget
-    return raw
+    return inspect.unwrap(raw)      # the function the source defines, below any functools.wraps decorators
 
 
 class Fixtures:
@@ -205,7 +206,7 @@ def defs_live(fx, sc):
         traced_names = sorted({k for t in traces for k in t.arg_types})
         fcs.append({"qual": fn["path"] + [fn["name"]], "kind": fn["gt_kind"], "async": fn["flavour"] == "coroutine",
                     "gt_params": gt_params, "updated": True, "traced": traced_names, "strategy": sc["strategy"],
-                    "defn": d, "flavour": fn["flavour"], "raised": raised})
+                    "defn": d, "flavour": fn["flavour"], "raised": raised, "wraps": fn.get("wraps", 0)})
     stubs = build_module_stubs(defs)
     if ref_stubs is None:
         if not any_raised:
@@ -262,7 +263,7 @@ def defs_store(mod, modname, fns, strategy_name):
             raise RuntimeError(f"generator and inspect.signature disagree on {real.__qualname__}")
         fcs.append({"qual": fn["path"] + [fn["name"]], "kind": fn["gt_kind"], "async": fn["flavour"] == "coroutine",
                     "gt_params": gt_params, "updated": True, "traced": sorted({k for t in traces for k in t.arg_types}),
-                    "strategy": strategy_name, "defn": d, "flavour": fn["flavour"], "raised": raised})
+                    "strategy": strategy_name, "defn": d, "flavour": fn["flavour"], "raised": raised, "wraps": fn.get("wraps", 0)})
     stubs = build_module_stubs(defs)
     try:
         ref_stubs = build_module_stubs_from_traces(rt_traces, 0, strategy)
@@ -328,7 +329,7 @@ def defs_direct(sc):
     for fn in sc["defs"]:
         params = []
         for p in fn["params"]:
-            default = {"empty": inspect.Parameter.empty, "None": None, "3": 3, "x": "x"}[p["default"]]
+            default = {"empty": inspect.Parameter.empty, "None": None, "3": 3, "x": "x", "ANY": unittest.mock.ANY}[p["default"]]
             anno = type_by_name(p["anno"]) if p["anno"] else inspect.Parameter.empty
             params.append(inspect.Parameter(p["name"], gen.PK_[p["kind"]], default=default, annotation=anno))
         ret = type_by_name(fn["ret"]) if fn["ret"] else inspect.Signature.empty
@@ -369,7 +370,10 @@ def cases_of_scenario(fx, sc):
     """-> list of dict(term, info...) — one mcase per module of the returned stubs"""
     if sc["kind"] == "history":
         return cases_of_history(fx, sc)
-    if sc["kind"] == "live":
+    if sc["kind"] == "live" and sc.get("store") and len(sc["modules"]) == 1:
+        m = sc["modules"][0]
+        fcs, defs, stubs, _ref, notes = defs_store(fx.load(m["name"], m["source"]), m["name"], sc["traced"], sc["strategy"])
+    elif sc["kind"] == "live":
         fcs, defs, stubs, notes = defs_live(fx, sc)
     else:
         fcs, defs, stubs, notes = defs_direct(sc)
@@ -420,7 +424,7 @@ def module_cases(fcs, stubs, sc, notes):
 # scenario generation
 # --------------------------------------------------------------------------------------------------
 def fn_record(modname, spec, rnd):
-    gt_params = [(p.name, p.kind, p.default is not None, p.anno is not None) for p in spec.params]
+    gt_params = [(p.name, p.kind, p.default is not None, p.anno is not None) for p in spec.params]   # default: None|"None"|"other"|"ANY"
     traces = []
     for _ in range(rnd.choice([1, 1, 2])):
         force = getattr(spec, "force", None) or {}
@@ -437,7 +441,7 @@ def fn_record(modname, spec, rnd):
         traces.append({"args": args, "ret": force.get("return") or rnd.choice([None, "int", "NoneType"]),
                        "yield": "int" if is_gen else None})
     return {"module": modname, "path": spec.path, "name": spec.name, "gt_kind": spec.fkind, "flavour": spec.flavour,
-            "gt_params": gt_params, "traces": traces}
+            "gt_params": gt_params, "traces": traces, "wraps": getattr(spec, "wraps", 0)}
 
 
 def nested(fn):
@@ -474,7 +478,9 @@ def live_scenarios(rnd, tier, tag):
             if not sub:
                 continue
             sc = {"kind": "live", "modules": [m], "traced": sub, "strategy": rnd.choice(STRATEGIES),
-                  "real_calls": k == 1 and i % 3 == 0}
+                  "real_calls": k == 1 and i % 3 == 0,
+                  # as the CLI does: traces stored, looked up again by module and qualname
+                  "store": k in (0, 2) or (k == 1 and i % 3 == 1)}
             scs.append(sc)
         if prev is not None and i % 4 == 0:      # traces of two modules in one call
             pm, pf = prev
@@ -501,7 +507,8 @@ def history_scenarios(rnd, tier, tag):
 def sig_to_params(sig):
     out = []
     for p in sig.parameters.values():
-        default = "empty" if p.default is inspect.Parameter.empty else {None: "None", 3: "3", "x": "x"}[p.default]
+        default = ("empty" if p.default is inspect.Parameter.empty else "ANY" if p.default is unittest.mock.ANY
+                   else {None: "None", 3: "3", "x": "x"}[p.default])
         anno = None if p.annotation is inspect.Parameter.empty else anno_name(p.annotation)
         out.append({"name": p.name, "kind": rf.KIND[p.kind], "default": default, "anno": anno})
     return out
@@ -587,6 +594,13 @@ def describe_failure(c):
     for fc in c["funcs"]:
         # the FunctionDefinition itself (before any rendering): a method's receiver must not pick up a traced type
         ps = list(fc["defn"].signature.parameters.values())
+        if not fc.get("raised") and fc["defn"].is_async != fc["async"]:
+            return (f"stub of {c['module']}: {'.'.join(fc['qual'])} is {'a' if fc['async'] else 'not a'} coroutine function "
+                    f"(flavour {fc['flavour']}, {fc.get('wraps', 0)} functools.wraps decorators) but its FunctionDefinition "
+                    f"has is_async={fc['defn'].is_async}: the stub says `{'async ' if fc['defn'].is_async else ''}def`")
+        if not fc.get("raised") and fc["defn"].kind.name != fc["kind"]:
+            return (f"stub of {c['module']}: {'.'.join(fc['qual'])} is written as {fc['kind']} in the source but its "
+                    f"FunctionDefinition has kind {fc['defn'].kind.name}")
         if fc["kind"] in ("CLASS", "INSTANCE", "PROPERTY", "DJANGO_CACHED_PROPERTY") and ps and fc["gt_params"] \
                 and ps[0].annotation is not inspect.Parameter.empty and not fc["gt_params"][0][3]:
             return (f"stub of {c['module']}: the receiver {ps[0].name!r} of {fc['kind']} {'.'.join(fc['qual'])}"
